@@ -88,7 +88,17 @@ def _ref_decode(b):
 
 
 def c15_decode(w, payload=b'\n\xc3\xa9\n'):
-    """w: ASCII text of the first two lines; the file is w + payload"""
+    """w: ASCII text of the first two lines; the file is w + payload.  The declared name of the witness is an
+    arbitrary member of [-\\w.]+; it is replaced by a real codec so that CPython can decode the file."""
+    import re as _re
+    for codec in (None, 'latin-1', 'cp1252'):
+        w2 = w if codec is None else _re.sub(r'(coding[:=][ \t]*)[-\w.]+', lambda m: m.group(1) + codec, w, count=1)
+        if _c15_decode_one(w2, payload):
+            return True
+    return False
+
+
+def _c15_decode_one(w, payload):
     from parso import python_bytes_to_unicode
     b = w.encode('latin-1') + payload
     ref = _ref_decode(b)
